@@ -1,0 +1,24 @@
+//go:build verif
+
+package writer
+
+// C15 (acknowledgement bookkeeping of the bulk handler): the `errors` flag of
+// the response is true iff some item was marked failed.  A ghost flag is set
+// wherever an item is stored with a failure status; the loop invariant ties
+// it to overallError.  Checked by /verif/bin/govc.  Comment-only file.
+//@ ghostdecl bulkFailed int
+
+//@ func HandleBulkBody
+//@   props C15
+//@   requires ghost(0, "bulkFailed") == 0
+//@   loop 1:
+//@     invariant overallError == (ghost(0, "bulkFailed") == 1)
+//@   site store items[inCount-1] #1:
+//@     ghostset ghost(0, "bulkFailed") = 1
+//@   site store items[inCount-1] #2:
+//@     ghostset ghost(0, "bulkFailed") = 1
+//@   site mapupdate response["errors"] #1:
+//@     assert [errors-iff-some-item-failed] overallError == (ghost(0, "bulkFailed") == 1)
+//@   site store items[inCount-1] #3:
+//@     assert [created-only-on-success] success
+//@ end
